@@ -358,6 +358,9 @@ impl Polynomial<Cmplx> {
             if b.abs() <= err { return; }
             let g = d / b;
             let g2 = g * g;
+            // ( p'/p )^2 overflows: x is a root to within the square root of the double range, nothing to improve
+            // ( the polish of a root at 0 arrives here: x -> 1e-16, 1e-32, ... , 1e-256 )
+            if !( g2.real.is_finite() && g2.imag.is_finite() ) { return; }
             let h = g2 - 2. * ( f / b );
             let sq = ( ( h * (m as f64) - g2 ) * ( m - 1 ) as f64  ).sqrt();
             let mut gp = g + sq;
